@@ -14,6 +14,7 @@ RULE = ('exhaustive: every mixed-radix tuple for n=1,2 (n=3 in thorough, 1,451,5
         'distinct = tuple blocks / vector v0 / (n, digit-extremes signature).'
         ' Matrices are also handed over in other memory layouts; transvection is applied to 2-4 dimensional stacks and with lists of 3-8 transvections (repeats included); rand_SpF2 over enumerated seeds must produce every digit value (n=1: all six elements); second-call clause for from_int_tuple / inverse.'
         ' get_number(n) without kind; the whole group kept in a list; one transvection on 2-D / 3-D stacks.')
+RULE += ' get_number kinds are also spelled in upper case / capitalised.'
 ASSUMPTIONS = ['|Sp(2n,F2)| = prod_i (4^i-1) 2^(2i-1) (textbook formula, computed in vf/ref.py)',
                'injectivity is concluded from the exact round trip, surjectivity from counting (and brute force for n<=2)']
 
@@ -204,6 +205,10 @@ def run_rand_tuple(ctx, case):
     got_default = spf2.get_number(n)
     ctx.require(isinstance(got_default, (tuple, list)) and tuple(got_default) == tuple(base), 'get_number(n) without kind = the radix tuple (documented default)', f'{got_default!r}')
     ctx.require(tuple(spf2.get_number(n, kind='base')) == tuple(base), 'get_number(kind=base) as keyword')
+    for kind_ in ('base', 'order', 'coset'):
+        for form_ in (kind_.upper(), kind_.capitalize()):  # the kind is matched case-insensitively (str(kind).lower() in the library)
+            a_, b_ = spf2.get_number(n, form_), spf2.get_number(n, kind_)
+            ctx.require(type(a_) == type(b_) and a_ == b_, 'get_number: the kind is case-insensitive', f'n={n} {form_}: {a_!r} vs {b_!r}')
     ctx.require(spf2.get_number(n, 'order') == ref.sp_order(n), 'get_number order', f'n={n}')
     ctx.require(tuple(spf2.get_number(n, 'coset')) == tuple((4 ** i - 1) * 2 ** (2 * i - 1) for i in range(1, n + 1)), 'get_number coset')
     _check_tuple(ctx, t)
